@@ -52,7 +52,8 @@ class C02(PropBase):
     REQUIRED_REACH = ("cut_in_longform_length", "residue_across_3_calls", "empty_chunk_with_residue", "three_pdus_completed_with_residue",
                       "memoryview_input", "scribbled_after_call", "cut_in_tag_or_first_len", "pdu_boundary_inside_chunk",
                       "sweep_single_cuts", "sweep_pair_cuts", "client_subject", "server_subject", "four_octet_outer_length",
-                      "sixty_plus_pdus_in_one_call", "two_unknown_result_codes_in_stream")
+                      "sixty_plus_pdus_in_one_call", "two_unknown_result_codes_in_stream", "stream_over_256KiB",
+                      "flag_control_with_and_without_value")
 
     # ------------------------------------------------------------------ generation of prepared session + stream
 
@@ -70,12 +71,16 @@ class C02(PropBase):
         big = rng.choice([0.05, 0.2, 0.4])
         huge = rng.choice([0.0, 0.0, 0.0, 0.02])
         g = Gen(rng, big=big, huge=huge, customs=customs)
+        g.odd_known = rng.random() < 0.5
         prep = []
         expected = []
         own_enc = rng.random() < 0.3  # stream encoded by the independent encoder (a foreign, conforming peer)
         own_style = rng.choice([("outer4", None, None), ("outer4", None, None), ("ad", 4, None), ("long", 2, 1), ("all4", 4, 4)])
         npdu = rng.choice([1, 2, 2, 3, 3, 4, 5, 6, 8, 12])
-        if rng.random() < 0.04:
+        if rng.random() < 0.012:
+            npdu = rng.choice([4, 5, 6])  # few PDUs, each about 64 KiB: a stream of more than 256 KiB in one delivery
+            g = Gen(rng, big=1.0, huge=0.6, customs=customs, rich=False)
+        elif rng.random() < 0.04:
             npdu = rng.choice([63, 64, 65, 70, 100, 130])  # many small messages completed by one receive() call
             big, huge = 0.0, 0.0
             g = Gen(rng, big=0.0, huge=0.0, customs=customs, rich=False)
@@ -159,7 +164,7 @@ class C02(PropBase):
         st = St(w)
         S, T = w.s["S"], w.s["T"]
         stream = bytes.fromhex(init["stream"])
-        x = st.x = {"units": [], "kinds": [],"stream": stream, "discard": None, "off": 0, "snap": [], "cuts": [], "calls_with_residue": 0,
+        x = st.x = {"units": [], "kinds": [], "snap_full": [],"stream": stream, "discard": None, "off": 0, "snap": [], "cuts": [], "calls_with_residue": 0,
                     "chunks": 0, "boundary_inside": False, "cut_inside": False, "twin": None, "prepared": None, "cands": []}
         if init.get("gen_error"):
             x["discard"] = "case generation failed: %s" % init["gen_error"]
@@ -226,6 +231,18 @@ class C02(PropBase):
             st.hit("four_octet_outer_length")
         if len(units) >= 60:
             st.hit("sixty_plus_pdus_in_one_call")
+        if len(stream) > 262144:
+            st.hit("stream_over_256KiB")
+        flagvals = {}
+        for m in init["expected"]:
+            for c in m.get("controls") or []:
+                if c.get("t") == "Control" and c.get("type") in ("1.2.840.113556.1.4.417", "1.2.840.113556.1.4.2065"):
+                    flagvals.setdefault((c["type"], c["critical"]), set()).add(c["value"])
+                elif c.get("t") in ("ShowDeleted", "ShowDeactivatedLink"):
+                    oid = "1.2.840.113556.1.4.417" if c["t"] == "ShowDeleted" else "1.2.840.113556.1.4.2065"
+                    flagvals.setdefault((oid, c["critical"]), set()).add(None)
+        if any(len(v) >= 2 for v in flagvals.values()):
+            st.hit("flag_control_with_and_without_value")
         codes = {m["result"]["code"] for m in init["expected"] if "result" in m and m["result"]["code"] not in values_known()}
         if len(codes) >= 2:
             st.hit("two_unknown_result_codes_in_stream")
@@ -347,6 +364,7 @@ class C02(PropBase):
         # snapshots of what was just returned
         for m in ev["msgs"]:
             x["snap"].append(norm(canon_msg(m)))
+            x["snap_full"].append(_full(m))
         got = x["snap"]
         tw = x["twin"]
         done = sum(1 for a, b in x["units"] if b <= x["off"])
@@ -380,9 +398,10 @@ class C02(PropBase):
         if got != x["twin"]:
             raise Violation(P, "overall-mismatch", "all %d bytes delivered in %d chunks: %d messages returned, single delivery returns %d" % (
                 len(x["stream"]), x["chunks"], len(got), len(x["twin"])))
-        now = [norm(canon_msg(m)) for m in S.returned_objs]
-        if now != x["snap"]:
-            i = next(i for i in range(len(now)) if now[i] != x["snap"][i])
+        now = [_full(m) for m in S.returned_objs]
+        if now != x["snap_full"]:
+            i = next(i for i in range(len(now)) if now[i] != x["snap_full"][i])
+            x["snap"] = x["snap_full"]
             raise Violation(P, "returned-value-mutated", "message #%d changed after it was returned (later deliveries / buffer reuse): was %s, "
                             "is now %s" % (i, _short(x["snap"][i]), _short(now[i])))
         self._same_end_state(S.real, T.real, x["cands"], st.w.init["role"], "chunked delivery")
@@ -474,6 +493,20 @@ def _own(msgs, own_style):
     _name, cf, pf = own_style
     with ber.style(cf, pf):
         return b"".join(rfc4511.enc_msg(x, outer_form=4) for x in msgs)
+
+
+def _full(m):
+    """canon + what canon deliberately leaves out: raw value of every control, name/value of the result code."""
+    out = norm(canon_msg(m))
+    raw = []
+    for c in (getattr(m, "controls", None) or []):
+        v = getattr(c, "value", None)
+        raw.append([type(c).__name__, bytes(v).hex() if isinstance(v, (bytes, bytearray, memoryview)) else v])
+    out["_raw_controls"] = raw
+    if hasattr(m, "result"):
+        rc = m.result.result_code
+        out["_code"] = [getattr(rc, "name", None), int(getattr(rc, "value", -1))]
+    return out
 
 
 def _probe(sess, role, mid):
